@@ -1151,6 +1151,12 @@ func (c *contextWriter) Run(ctx context.Context, input []byte) ([]byte, error) {
 		return nil, err
 	}
 
+	// the caller context is only attached on the CALL path: a write that reaches
+	// the precompile in another way cannot be attributed and is refused
+	if c.ctx == nil {
+		return nil, errors.New("context write requires a plain CALL")
+	}
+
 	if err := types.SetAspectContext(ctx, c.ctx.from, string(key), value); err != nil {
 		return nil, err
 	}
